@@ -224,6 +224,127 @@ Theorem C08_coset_points_distinct :
 Proof. exact @coset_points_NoDup. Qed.
 Print Assumptions C08_coset_points_distinct.
 
+(* ---------------------------------------------------------------- batched interpolation, memoisation soundness *)
+(* batch_fast_interpolate: every row of the matrix gets THE interpolant.  The tables keyed by (first, last) start empty; the
+   proof (bfi_go_spec) shows that on a duplicate-free domain no lookup ever hits - distinct sub-slices have distinct keys -
+   so nothing stale can be read.  The root / order arguments are only inspected by a debug assertion. *)
+Theorem C08_batch_fast_interpolate :
+  forall {F K} (o : fops F) (fk : fieldK K) (ok : F -> Prop) (den : F -> K), field_ok o fk ok den ->
+  forall ntt intt bnd, mul_exact o fk ok den ntt intt bnd -> red_exact o fk ok den ntt intt -> fred_exact o fk ok den ntt intt ->
+  forall dbg domain matrix root order, Forall ok domain -> domain <> [] -> NoDup (map den domain) ->
+  Z.of_nat (length domain) + 1 <= bnd -> Forall (fun v => Forall ok v /\ length v = length domain) matrix ->
+  (dbg = true -> mod_pow root (order mod 2 ^ 32) = bfe_one) ->
+  exists rs, pint_batch_fast_interpolate o ntt intt dbg domain matrix root order = Some rs /\
+             Forall2 (fun v r => Forall ok r /\ interpolates fk (map den domain) (map den v) (map den r)) matrix rs.
+Proof. exact @batch_fast_interpolate_spec. Qed.
+Print Assumptions C08_batch_fast_interpolate.
+(* the memoised worker with arbitrary incoming tables: sound whenever the only key both of whose components lie in the
+   domain is the key of the domain itself (memo_inv; trivially true of empty tables) *)
+Theorem C08_batch_fast_interpolate_with_memoization :
+  forall {F K} (o : fops F) (fk : fieldK K) (ok : F -> Prop) (den : F -> K), field_ok o fk ok den ->
+  forall ntt intt bnd, mul_exact o fk ok den ntt intt bnd -> red_exact o fk ok den ntt intt -> fred_exact o fk ok den ntt intt ->
+  forall dbg domain matrix memo, Forall ok domain -> domain <> [] -> NoDup (map den domain) ->
+  Z.of_nat (length domain) + 1 <= bnd -> Forall (fun v => Forall ok v /\ length v = length domain) matrix ->
+  memo_ok ok memo -> memo_inv o den domain memo ->
+  exists rs memo', pint_batch_fast_interpolate_with_memoization o ntt intt dbg domain matrix memo = Some (rs, memo') /\
+    Forall2 (fun v r => Forall ok r /\ interpolates fk (map den domain) (map den v) (map den r)) matrix rs /\ memo_ok ok memo'.
+Proof. exact @batch_fast_interpolate_with_memoization_spec. Qed.
+Print Assumptions C08_batch_fast_interpolate_with_memoization.
+Example C08_memo_inv_empty : forall {F K} (o : fops F) (ok : F -> Prop) (den : F -> K) domain,
+  memo_ok ok ([], []) /\ memo_inv o den domain ([], []).
+Proof. exact (fun F K o ok den domain => conj (Forall_nil _) (fun k (Hk : False) => False_ind _ Hk)). Qed.
+
+(* ---------------------------------------------------------------- coset extrapolation = evaluate (interpolate on the coset) *)
+(* `emb b` = the element of K denoted by the base-field word b (offset, roots); lift_ok / binv_ok: FF::from(b.value())
+   and b.inverse() respect it (C01).  extrapolation_of offset l cw pts vs: for EVERY polynomial ip that interpolates the
+   codeword cw on the coset offset * <wr l>, vs = [ip(pt) | pt in pts]. *)
+Theorem C08_coset_interpolant :
+  forall {F K} (o : fops F) (fk : fieldK K) (ok : F -> Prop) (den : F -> K), field_ok o fk ok den ->
+  forall intt lmax wr, intt_ok fk ok den intt lmax wr -> roots_ok fk lmax wr ->
+  forall emb, lift_ok o ok den emb -> binv_ok fk emb ->
+  forall l offset cw, (l <= lmax)%nat -> canon offset -> emb offset <> k0 fk -> Forall ok cw -> length cw = (2 ^ l)%nat ->
+  exists ip, pint_coset_interpolant o intt offset cw = Some ip /\ Forall ok ip /\
+             interpolates fk (coset_points fk wr (emb offset) l) (map den cw) (map den ip).
+Proof. exact (fun F K o fk ok den H intt => coset_interpolant_spec o fk ok den H intt). Qed.
+Print Assumptions C08_coset_interpolant.
+Theorem C08_naive_coset_extrapolate :
+  forall {F K} (o : fops F) (fk : fieldK K) (ok : F -> Prop) (den : F -> K), field_ok o fk ok den ->
+  forall ntt intt bnd lmax wr, mul_exact o fk ok den ntt intt bnd -> red_exact o fk ok den ntt intt ->
+  fred_exact o fk ok den ntt intt -> intt_ok fk ok den intt lmax wr -> roots_ok fk lmax wr ->
+  forall emb, lift_ok o ok den emb -> binv_ok fk emb ->
+  forall l offset cw pts, (l <= lmax)%nat -> canon offset -> emb offset <> k0 fk -> Forall ok cw -> length cw = (2 ^ l)%nat ->
+  Forall ok pts -> Z.of_nat (length pts) + 1 <= bnd ->
+  exists vs, pint_naive_coset_extrapolate o ntt intt offset cw pts = Some vs /\ Forall ok vs /\
+             extrapolation_of fk den wr emb offset l cw pts vs.
+Proof. exact (fun F K o fk ok den H ntt intt bnd => naive_coset_extrapolate_spec o fk ok den H ntt intt bnd). Qed.
+Print Assumptions C08_naive_coset_extrapolate.
+(* the fast arm and the dispatcher, given that fast_modular_coset_interpolate returns a polynomial congruent to the interpolant
+   modulo the zerofier of the points (fmci_exact: proved below for codeword lengths up to 2^17, C08_fmci_small_partial) *)
+Theorem C08_coset_extrapolate :
+  forall {F K} (o : fops F) (fk : fieldK K) (ok : F -> Prop) (den : F -> K), field_ok o fk ok den ->
+  forall ntt intt bnd act lmax wr, mul_exact o fk ok den ntt intt bnd -> red_exact o fk ok den ntt intt ->
+  fred_exact o fk ok den ntt intt -> intt_ok fk ok den intt lmax wr -> roots_ok fk lmax wr ->
+  forall emb, lift_ok o ok den emb -> binv_ok fk emb ->
+  forall dbg, fmci_exact o fk ok den ntt intt act lmax wr emb dbg ->
+  forall l offset cw pts, (l <= lmax)%nat -> canon offset -> emb offset <> k0 fk -> Forall ok cw -> length cw = (2 ^ l)%nat ->
+  Forall ok pts -> Z.of_nat (length pts) + 1 <= bnd ->
+  exists vs, pint_coset_extrapolate o act ntt intt dbg offset cw pts = Some vs /\ Forall ok vs /\
+             extrapolation_of fk den wr emb offset l cw pts vs.
+Proof. exact @coset_extrapolate_spec. Qed.
+Print Assumptions C08_coset_extrapolate.
+(* batch_coset_extrapolate = par_batch_coset_extrapolate = the per-codeword extrapolations, concatenated in order; rbnf_exact:
+   the C09 statement about shift_factor_ntt_with_tail_length / reduce_by_ntt_friendly_modulus; the preprocessing is assumed
+   not to panic *)
+Theorem C08_batch_coset_extrapolate :
+  forall {F K} (o : fops F) (fk : fieldK K) (ok : F -> Prop) (den : F -> K), field_ok o fk ok den ->
+  forall ntt intt bnd act lmax wr, mul_exact o fk ok den ntt intt bnd -> red_exact o fk ok den ntt intt ->
+  intt_ok fk ok den intt lmax wr -> roots_ok fk lmax wr ->
+  forall emb, lift_ok o ok den emb -> binv_ok fk emb ->
+  forall dbg, fmci_exact o fk ok den ntt intt act lmax wr emb dbg -> rbnf_exact o fk ok den ntt intt ->
+  forall l offset cws pts, (l <= lmax)%nat -> canon offset -> emb offset <> k0 fk -> Forall ok cws -> Forall ok pts ->
+  Z.of_nat (length pts) + 1 <= bnd ->
+  (exists pre, pint_fmci_preprocess o ntt intt (2 ^ Z.of_nat l) offset
+                 (match pint_tree_new_from_domain o ntt intt pts with Some t => pint_tree_zerofier o t | None => [] end) = Some pre) ->
+  exists vs, pint_batch_coset_extrapolate o act ntt intt dbg offset (2 ^ Z.of_nat l) cws pts = Some vs /\
+             pint_par_batch_coset_extrapolate o act ntt intt dbg offset (2 ^ Z.of_nat l) cws pts = Some vs /\ Forall ok vs /\
+             batch_extrapolation_of fk den wr emb offset l (2 ^ Z.of_nat l) cws pts vs.
+Proof. exact @batch_coset_extrapolate_spec. Qed.
+Print Assumptions C08_batch_coset_extrapolate.
+
+(* fast_modular_coset_interpolate, PARTIAL: the Lagrange regime (n < 2^8) and the INTT regime (2^8 <= n <= 2^17) return a
+   polynomial congruent to the interpolant modulo the modulus, provided the preprocessing did not panic.  Not proved: the
+   even/odd recursion for n > 2^17 (C08_fmci_full below stays a Definition; the regime is exercised by the thorough tier
+   of the correspondence check with 2^18-element codewords against the naive inverse-DFT + long-division spec). *)
+Theorem C08_fmci_small_partial :
+  forall {F K} (o : fops F) (fk : fieldK K) (ok : F -> Prop) (den : F -> K), field_ok o fk ok den ->
+  forall ntt intt bnd act lmax wr, mul_exact o fk ok den ntt intt bnd -> red_exact o fk ok den ntt intt ->
+  intt_ok fk ok den intt lmax wr -> roots_ok fk lmax wr ->
+  forall emb, lift_ok o ok den emb -> binv_ok fk emb ->
+  forall dbg, act_ok fk ok den act emb -> root_ok lmax wr emb -> rbnf_exact o fk ok den ntt intt ->
+  forall l offset cw m pre, (l <= lmax)%nat -> 2 ^ Z.of_nat l <= FAST_MODULAR_COSET_INTERPOLATE_CUTOFF_THRESHOLD_PREFER_INTT ->
+  canon offset -> emb offset <> k0 fk -> Forall ok cw -> length cw = (2 ^ l)%nat -> Z.of_nat (length cw) + 1 <= bnd ->
+  Forall ok m -> ~ pzero fk (map den m) -> pint_fmci_preprocess o ntt intt (zlen cw) offset m = Some pre ->
+  exists r, pint_fmci_with_zerofiers_and_ntt_friendly_multiple o act ntt intt dbg cw offset m pre = Some r /\
+            pint_fast_modular_coset_interpolate o act ntt intt dbg cw offset m = Some r /\ Forall ok r /\
+            forall ip, interpolates fk (coset_points fk wr (emb offset) l) (map den cw) ip -> congruent fk ip (map den m) (map den r).
+Proof. exact @fmci_small_spec. Qed.
+Print Assumptions C08_fmci_small_partial.
+Definition C08_fmci_full : Prop :=
+  forall (F K : Type) (o : fops F) (fk : fieldK K) (ok : F -> Prop) (den : F -> K), field_ok o fk ok den ->
+  forall ntt intt bnd act lmax wr, mul_exact o fk ok den ntt intt bnd -> red_exact o fk ok den ntt intt ->
+  ntt_ok fk ok den ntt lmax wr -> intt_ok fk ok den intt lmax wr -> roots_ok fk lmax wr ->
+  forall emb, lift_ok o ok den emb -> binv_ok fk emb -> act_ok fk ok den act emb -> root_ok lmax wr emb ->
+  rbnf_exact o fk ok den ntt intt ->
+  forall dbg, fmci_exact o fk ok den ntt intt act lmax wr emb dbg.
+(* barycentric_evaluate: not proved (the barycentric formula for roots of unity); full statement, tied by correspondence *)
+Definition C08_barycentric_full : Prop :=
+  forall (F K : Type) (o : fops F) (fk : fieldK K) (ok : F -> Prop) (den : F -> K), field_ok o fk ok den ->
+  forall act lmax wr emb, roots_ok fk lmax wr -> act_ok fk ok den act emb -> root_ok lmax wr emb ->
+  forall l cw x, (l <= lmax)%nat -> Forall ok cw -> length cw = (2 ^ l)%nat -> ok x ->
+  ~ In (den x) (coset_points fk wr (k1 fk) l) ->
+  exists r, pint_barycentric_evaluate o act cw x = Some r /\ ok r /\
+            forall ip, interpolates fk (coset_points fk wr (k1 fk) l) (map den cw) ip -> den r = peval fk ip (den x).
+
 (* ---------------------------------------------------------------- Polynomial<BFieldElement>: C06 / C07 discharged *)
 Example C08_bfe_instance : field_ok bfe_ops fp_field canon bden.
 Proof. exact bfe_field_ok. Qed.
@@ -263,6 +384,19 @@ Proof.
            bfe_ntt_ok bfe_intt_ok bfe_roots_ok l offset values Hl (Nat.le_trans _ _ _ Hl (proj1 (Nat.leb_le 31 62) eq_refl))).
 Qed.
 Print Assumptions C08_bfe_coset_round_trip.
+
+Example C08_bfe_extrapolation_hypotheses :
+  lift_ok bfe_ops canon bden bden /\ binv_ok fp_field bden /\ act_ok fp_field canon bden bb_act bden /\ root_ok 31 wr_b bden.
+Proof. exact (conj bfe_lift_ok (conj bfe_binv_ok (conj bfe_act_ok bfe_root_ok))). Qed.
+(* the interpolant of a codeword on the coset offset * <w>: no hypothesis left for the base field *)
+Theorem C08_bfe_coset_interpolant : forall l offset cw, (l <= 31)%nat -> canon offset -> bden offset <> k0 fp_field ->
+  Forall canon cw -> length cw = (2 ^ l)%nat ->
+  exists ip, pint_coset_interpolant bfe_ops intt_b offset cw = Some ip /\ Forall canon ip /\
+             interpolates fp_field (coset_points fp_field wr_b (bden offset) l) (map bden cw) (map bden ip).
+Proof.
+  exact (coset_interpolant_spec bfe_ops fp_field canon bden bfe_field_ok intt_b 31 wr_b bfe_intt_ok bfe_roots_ok bden bfe_lift_ok bfe_binv_ok).
+Qed.
+Print Assumptions C08_bfe_coset_interpolant.
 
 (* concrete instances: zerofier of {2, 4, 6} and the interpolant through (0,1), (1,3), (2,5), (3,7) (= 1 + 2X) *)
 Example C08_ex_zerofier :
